@@ -187,6 +187,7 @@ func (c *Cluster) Close() {
 	}
 	for _, s := range c.Srvs {
 		s.Stop()
+		s.Release()
 	}
 	for _, p := range c.Proxies {
 		p.Close()
